@@ -80,6 +80,21 @@ Theorem c11_others_eventually : forall cap handler evs s rs outs fuel,
   (q_handles s = 0 -> q_wk s' = WExited /\ sink_released s' = true).
 Proof. exact panic_script_eventually. Qed.
 
+(* both together, as one statement *)
+Theorem c11_others : forall cap handler evs s rs outs fuel,
+  run true (init_q cap handler) evs = Some (s, rs) -> mu s < fuel ->
+  let s' := quiesce true fuel s outs in
+  map fst (q_delivered s) ++ inflight (q_wk s) ++ somes (q_chan s) = seq 0 (q_accepted s) /\
+  q_delivered s' = q_delivered s ++ answers (pending_ids s) outs /\
+  map fst (q_delivered s') = seq 0 (q_accepted s) /\
+  q_panics s' = q_panics s + npanics (answers (pending_ids s) outs) /\
+  (q_handles s <> 0 -> q_wk s' = WRecv) /\
+  (q_handles s = 0 -> q_wk s' = WExited /\ sink_released s' = true).
+Proof.
+  intros cap handler evs s rs outs fuel R Hmu s'.
+  split; [exact (I_commit s (inv_reach _ _ _ _ _ R)) | exact (panic_script_eventually _ _ _ _ _ _ _ R Hmu)].
+Qed.
+
 (* the extreme script: the wrapped sink panics on EVERY remaining metric, also while a stop is
    pending (q_handles s = 0): each metric is consumed once, in order; the worker ends waiting,
    or — no handle left — still exits and releases the wrapped sink *)
